@@ -929,7 +929,17 @@ pub fn read_strict(img: &[u8], opts: &StrictOpts) -> R<StrictDoc> {
             Some(Entry::Compressed { container, index }) => {
                 let r = Reader { img: img_ref, covered: Vec::new() };
                 let c = match merged_for_len.get(container) {
-                    Some(Entry::InUse { offset, .. }) => r.indirect_at(*offset, &|_, _| Err("object stream with indirect Length".into()))?,
+                    // the container's own Length may be an indirect plain integer (one more level, no further)
+                    Some(Entry::InUse { offset, .. }) => r.indirect_at(*offset, &|cn, cg| match merged_for_len.get(&cn) {
+                        Some(Entry::InUse { offset, gen }) if *gen == cg => {
+                            let r2 = Reader { img: img_ref, covered: Vec::new() };
+                            match r2.indirect_at(*offset, &|_, _| Err("nested indirect Length".into()))?.obj {
+                                MObj::Int(i) => Ok(i),
+                                o => Err(format!("indirect Length {} {} R of an object stream is {}", cn, cg, show(&o))),
+                            }
+                        }
+                        _ => Err(format!("indirect Length {} {} R of an object stream is not a plain in-use object", cn, cg)),
+                    })?,
                     _ => return Err(format!("container {} of compressed Length object is not in use", container)),
                 };
                 let members = objstm_members(&c.obj)?;
